@@ -1116,6 +1116,10 @@ class Engine:
     def iterable(self, it):
         if isinstance(it, OptObj):
             it = it.obj
+        if isinstance(it, SDict):
+            if getattr(it, 'keys_seq', None) is None:
+                raise EngineError('iteration over a dictionary without a key sequence model')
+            return it.keys_seq
         if isinstance(it, SObj):
             fn, c = self.repo.find_method(it.cls, '__iter__')
             if fn is None:
@@ -1238,6 +1242,8 @@ class Engine:
         if spec is None:
             raise EngineError('loop %s over a symbolic sequence needs a LoopSpec (line %d: for ... in %s)'
                               % (key, st.lineno, ast.unparse(st.iter)))
+        if getattr(spec, 'search', None) is not None:
+            return self.search_for(st, env, it, spec)
         if st.orelse:
             raise EngineError('for-else over symbolic sequence')
         seq = self.as_seq(it)
@@ -1350,6 +1356,72 @@ class Engine:
         for n in ast.walk(st.target):
             if isinstance(n, ast.Name):
                 env.pop(n.id, None)
+
+    def search_for(self, st, env, it, spec):
+        """`for x in seq: ... if cond(x): <effects>; break` [else: ...] over an unbounded sequence.
+        spec.search(eng, elem) -> bool-like is the specification's break condition.  Proved for a
+        generic element: the body breaks iff search(elem), and an iteration that does not break
+        writes nothing that outlives it.  Then two continuations: (found) the first index i with
+        search(seq[i]) -- the body is executed for that element; (not found) no element satisfies
+        it -- the else block runs."""
+        seq = self.as_seq(it)
+        name = spec.name
+        mode = self.choose(3)
+        if mode == 0:
+            i = fresh_int('it')
+            self.assume(b_and(r_cmp('>=', i, 0), r_cmp('<', i, seq.length)))
+            elem = seq.at(i)
+            want = spec.search(self, elem)
+            self.assign(st.target, elem, env)
+            frame = self.frames[-1]
+            frame['writes'] = []
+            stamp0 = _STAMP[0]
+            broke = False
+            try:
+                self.exec_block(st.body, env)
+            except _Continue:
+                pass
+            except _Break:
+                broke = True
+            self.oblige('%s/breaks-exactly-when-the-element-matches' % name,
+                        bterm(want) if broke else z3.Not(bterm(want)))
+            if not broke:
+                body_locals = set(n.id for n in ast.walk(ast.Module(body=st.body, type_ignores=[]))
+                                  if isinstance(n, ast.Name) and isinstance(n.ctx, ast.Store))
+                body_locals |= set(n.id for n in ast.walk(st.target) if isinstance(n, ast.Name))
+                leaks = [w for w in frame['writes']
+                         if not (w[0] == 'local' and w[1] in body_locals)
+                         and not (w[0] != 'local' and w[0] != 'yield' and getattr(w[1], 'stamp', 0) > stamp0)]
+                self.oblige('%s/non-matching-iterations-have-no-effect' % name, not leaks,
+                            detail=str([w[0] for w in leaks]))
+            raise PathEnd()
+        if mode == 1:
+            # found: first matching index
+            i = fresh_int('first')
+            self.assume(b_and(r_cmp('>=', i, 0), r_cmp('<', i, seq.length)))
+            elem = seq.at(i)
+            self.assume(spec.search(self, elem))
+            j = z3.Int(fresh_name('j'))
+            prev = spec.search(self, seq.at(SV(j, 'int')))
+            self.assume(SV(z3.ForAll([j], z3.Implies(z3.And(j >= 0, j < term(i)), z3.Not(bterm(prev)))), 'bool'))
+            self.assign(st.target, elem, env)
+            if getattr(spec, 'on_found', None) is not None:
+                spec.on_found(self, elem, i)
+            try:
+                self.exec_block(st.body, env)
+            except _Break:
+                return
+            raise EngineError('search loop %s: matching element did not break' % name)
+        # not found
+        j = z3.Int(fresh_name('j'))
+        anyel = spec.search(self, seq.at(SV(j, 'int')))
+        self.assume(SV(z3.ForAll([j], z3.Implies(z3.And(j >= 0, j < term(seq.length)), z3.Not(bterm(anyel)))), 'bool'))
+        if getattr(spec, 'on_not_found', None) is not None:
+            spec.on_not_found(self)
+        for n in ast.walk(st.target):
+            if isinstance(n, ast.Name):
+                env.pop(n.id, None)
+        self.exec_block(st.orelse, env)
 
     MUTATORS = ('append', 'add', 'extend', 'update', 'pop', 'sort', 'insert', 'remove', 'clear')
 
@@ -1608,6 +1680,11 @@ class Engine:
     def key_term(self, k):
         if isinstance(k, Opt):
             k = self.unopt(k)
+        if isinstance(k, tuple) and len(k) == 3 and all(is_reallike(x) for x in k):
+            # a coordinate triple used as a dictionary key: abstract key identity, a function of the
+            # three coordinates (equal coordinates -> equal keys)
+            R = z3.RealSort()
+            return self.uf('keyof', R, R, R, z3.IntSort())(*[term(x, True) for x in k])
         if isinstance(k, SObj):
             return k.ident
         if isinstance(k, OptObj):
